@@ -269,6 +269,24 @@ func runC05(c *Ctx) {
 	kinds := []string{"operator", "account", "user", "activation", "authorization_request", "authorization_response", "generic", "cluster", "server", "unknown_kind", ""}
 	signerFor := map[string]string{"operator": "operator", "account": "account", "user": "account", "activation": "account",
 		"authorization_request": "server", "authorization_response": "account", "generic": "user", "cluster": "operator", "server": "operator", "unknown_kind": "account", "": "account"}
+	// declared versions that are not small integers: beyond int64 / uint64, exponent and fraction forms, quoted,
+	// boolean - a payload that "declares a version no newer than 2" declares an integer
+	for _, ver := range []interface{}{json.Number("9223372036854775808"), json.Number("18446744073709551618"), json.Number("1e29"),
+		json.Number("2.5"), json.Number("2.0"), json.Number("2e0"), json.Number("-0"), "3", "2", true, []interface{}{2}, json.Number("3.0000000000000001")} {
+		for _, kind := range kinds {
+			for _, placement := range []string{"top", "nats"} {
+				for _, layout := range []string{"v1", "v2"} {
+					for _, hdr := range []string{hdrV1, hdrV2} {
+						s := kr.by[signerFor[kind]]
+						ft := forge(hdr, payload(kind, placement, ver, s.pub, kr.by["account"].pub), layout, s)
+						ft.Note = fmt.Sprintf("version literal %v kind=%q placement=%s", ver, kind, placement)
+						_, o := processToken(c, w, ft)
+						distinct[fmt.Sprint("oddver", ver, kind, placement, layout, hdr == hdrV1, o.Accepted, o.Generic)] = true
+					}
+				}
+			}
+		}
+	}
 	step := 1
 	if !c.thorough() {
 		step = 1
@@ -511,9 +529,17 @@ func runC01(c *Ctx) {
 	// the signature must have been checked over that version's text
 	for _, kind := range kindNames {
 		s := kr.by[signerFor[kind]]
-		for _, ver := range []interface{}{nil, 0, 1, 2} {
+		for _, ver := range []interface{}{nil, 0, 1, 2, -1, -2} {
 			for _, layout := range []string{"v1", "v2"} {
 				for _, hdr := range []string{hdrV1, hdrV2} {
+					// the kind in the nats section only, with versions at and below zero: which text is signed follows
+					// the version the claims report, never the (unsigned, in the version-1 layout) header
+					{
+						ft := forge(hdr, payload(kind, "nats", ver, s.pub, s.pub), layout, s)
+						ft.Note = fmt.Sprintf("kind %s in the nats section, version %v, signed %s", kind, ver, layout)
+						_, o := processToken(c, w, ft)
+						distinct[fmt.Sprint("lowver", kind, ver, layout, hdr == hdrV1, o.Accepted)] = true
+					}
 					m := map[string]interface{}{"iss": s.pub, "sub": s.pub, "iat": 1700000000, "type": kind}
 					nats := map[string]interface{}{"type": kind}
 					if ver != nil {
